@@ -1,3 +1,71 @@
 """extra — property-specific phases beyond the common correspondence run.
 Each phase_<id>(tier, seed, build_status, harness_stats) returns (coverage_dict, violations_list)."""
+import os, json
 from vlib import *  # noqa
+import vlib
+
+
+def read_cases(path):
+    d = {}
+    order = []
+    if not os.path.exists(path):
+        return d, order
+    for l in open(path):
+        f = l.rstrip("\n").split("\t")
+        if "=" not in f:
+            continue
+        k = f.index("=")
+        key = "\t".join(f[:k])
+        obs = (f[k + 1], f[k + 2] if len(f) > k + 2 else "")
+        d.setdefault(key, []).append(obs)
+        order.append(key)
+    return d, order
+
+
+def phase_C14(tier, seed, st, stats):
+    """run the same corpus under every configuration and compare case by case with the default run"""
+    base_dir = os.path.join(BUILD, "run", "C14")
+    base, order = read_cases(os.path.join(base_dir, "cases.tsv"))
+    configs = [
+        ("avx2off", os.path.join(BUILD, "bin", "harness"), {"GODEBUG": "cpu.avx2=off"}),
+        ("popcntoff", os.path.join(BUILD, "bin", "harness"), {"GODEBUG": "cpu.popcnt=off"}),
+        ("avx2off+popcntoff", os.path.join(BUILD, "bin", "harness"), {"GODEBUG": "cpu.avx2=off,cpu.popcnt=off"}),
+        ("goamd64v3", vlib.build_variant("v3", {"GOAMD64": "v3"}), {}),
+        ("goarch386", vlib.build_variant("386", {"GOARCH": "386"}), {}),
+    ]
+    viol = []
+    cov = {"configurations": {"default": {"cases": len(order), "notes": stats.get("notes")}}}
+    for name, binary, env in configs:
+        outdir = os.path.join(BUILD, "run", "C14_" + name)
+        s2 = vlib.run_harness("C14", tier, seed, outdir, extra_env=env, binary=binary)
+        other, order2 = read_cases(os.path.join(outdir, "cases.tsv"))
+        ndiff = 0
+        first = None
+        for key in base:
+            if key not in other:
+                ndiff += 1
+                first = first or (key, base[key], None)
+            elif other[key] != base[key]:
+                ndiff += 1
+                first = first or (key, base[key], other[key])
+        missing = [k for k in other if k not in base]
+        cov["configurations"][name] = {"cases": len(order2), "differences": ndiff, "extra_cases": len(missing),
+                                       "notes": s2.get("notes"), "findings": len(s2.get("findings") or [])}
+        if first:
+            viol.append({"kind": "config", "case": first[0],
+                         "detail": "configuration %s: observations %s; default configuration: %s" % (name, first[2], first[1])})
+        for f in (s2.get("findings") or []):
+            if f["kind"] in ("config", "kernel", "relation", "hang", "mutated", "copy"):
+                viol.append({"kind": "config:" + f["kind"], "fn": f.get("fn"), "case": f.get("case"),
+                             "detail": "configuration %s: %s" % (name, f.get("detail"))})
+            elif f["kind"] in ("ref-mismatch", "parity", "panic"):
+                # decided against the extracted Spec below
+                pass
+        # the 386 run takes the portable Go kernels: compare with the model too (different code is executed)
+        if name in ("goarch386", "popcntoff"):
+            n, mism, refdis = vlib.compare_with_model(outdir)
+            cov["configurations"][name]["model_cases"] = n
+            cov["configurations"][name]["model_mismatches"] = len(mism)
+            for m in mism[:5]:
+                viol.append(dict(m, kind="config: implementation != Spec under configuration " + name))
+    return cov, viol
